@@ -105,6 +105,9 @@ def _always_exits(stmts: List[ast.stmt]) -> bool:
         return True
     if isinstance(s, ast.If):
         return bool(s.orelse) and _always_exits(s.body) and _always_exits(s.orelse)
+    if isinstance(s, ast.Try) and not s.finalbody:
+        main = _always_exits(s.body) or (bool(s.orelse) and _always_exits(s.orelse))
+        return main and all(_always_exits(h.body) for h in s.handlers)
     return False
 
 
@@ -132,8 +135,27 @@ def _eliminate_returns(stmts: List[ast.stmt], mk) -> List[ast.stmt]:
             new = ast.copy_location(ast.If(test=s.test, body=nb, orelse=no), s)
             out.append(new)
             return out
+        if isinstance(s, ast.Try) and _has_return([s]):
+            if _has_return(s.finalbody):
+                raise _CannotInline("return inside finally")
+            rest = stmts[i + 1:]
+            body_ret = _has_return(s.body)
+            if body_ret and not _always_exits(s.body):
+                raise _CannotInline("conditional return inside a try body")
+            if body_ret:
+                nb = _eliminate_returns(list(s.body), mk) or [ast.copy_location(ast.Pass(), s)]
+                no: List[ast.stmt] = []
+            else:
+                nb = list(s.body)
+                no = _eliminate_returns(list(s.orelse) + copy.deepcopy(rest), mk)
+            nh = []
+            for h in s.handlers:
+                hb = list(h.body) + ([] if _always_exits(h.body) else copy.deepcopy(rest))
+                nh.append(ast.copy_location(ast.ExceptHandler(type=h.type, name=h.name, body=_eliminate_returns(hb, mk) or [ast.copy_location(ast.Pass(), h)]), h))
+            out.append(ast.copy_location(ast.Try(body=nb, handlers=nh, orelse=no, finalbody=list(s.finalbody)), s))
+            return out
         if _has_return([s]):
-            raise _CannotInline("return inside a loop / try / with")
+            raise _CannotInline("return inside a loop / with")
         out.append(s)
     return out
 
@@ -334,6 +356,19 @@ class ModuleInliner:
                     val = v if v is not None else ast.Constant(value=None)
                     if len(targets) == 1 and ast.dump(targets[0]).replace("Store()", "Load()") == ast.dump(val):
                         return []  # x = x  /  a, b = (a, b)
+                    t0 = targets[0]
+                    if len(targets) == 1 and isinstance(t0, (ast.Tuple, ast.List)) and isinstance(val, ast.Tuple) and len(t0.elts) == len(val.elts) \
+                            and all(isinstance(e, ast.Name) for e in t0.elts):
+                        # a, b = (x, y)  ->  a = x; b = y   when no later element reads an earlier target
+                        names = [e.id for e in t0.elts]
+                        safe = all(not any(isinstance(n, ast.Name) and n.id in names[:j] for n in ast.walk(val.elts[j])) for j in range(1, len(names)))
+                        if safe:
+                            out_ = []
+                            for tn, ve in zip(t0.elts, val.elts):
+                                if isinstance(ve, ast.Name) and ve.id == tn.id:
+                                    continue
+                                out_.append(ast.copy_location(ast.Assign(targets=[ast.Name(id=tn.id, ctx=ast.Store())], value=ve), at))
+                            return out_
                     return [ast.copy_location(ast.Assign(targets=copy.deepcopy(targets), value=val), at)]
                 new = prologue + _eliminate_returns(body, mk)
                 if not _always_exits(body):
